@@ -56,7 +56,7 @@ let str_reason r =
   | Conflict s -> "conflict:" ^ hex_of_bytes s
   | Missing s -> "missing:" ^ hex_of_bytes s
   | BadType s -> "badtype:" ^ hex_of_bytes s
-let str_writer w = match w with WDefault -> "default" | WMinify -> "minify" | WFormatTuple -> "format-tuple"
+let str_writer w = match w with WDefault -> "default" | WMinify -> "minify" | WFormat -> "format" | WFormatTuple -> "format-tuple"
 let handle fields =
   match fields with
   | ["build"; ns; files; empty] ->
